@@ -7,6 +7,7 @@ import Hm.Rhymuri
 import Hm.Text
 import Hm.C10Req
 import Hm.C13EndToEnd
+import Hm.BlockCheck
 
 def hexDigit (n : Nat) : Char := if n < 10 then Char.ofNat (48 + n) else Char.ofNat (87 + n)
 def hex (bs : Bytes) : String := String.ofList (bs.flatMap fun b => [hexDigit (b.toNat / 16), hexDigit (b.toNat % 16)])
@@ -167,6 +168,41 @@ def respOp (cfg : RespCfg) (ds : List Bytes) : String × Option RespState :=
 
 def deflateOf (tree : Bool) : Bytes → Option Bytes := if tree then deflateSniff else inflateRaw
 
+/-! block descriptions for the `BLOCKS` op: blocks separated by `/`;
+    `S:<hex>` | `F:<toks>` | `D:<hlit>,<hdist>,<hclen>:<clv>:<cls>:<lens>:<toks>`; lists separated by `;` (`.` = empty);
+    tok = `l<byte>` | `m<ls>.<eb>.<ds>.<db>`; cl symbol = `n<v>` | `r<r>` | `z<r>` | `Z<r>` -/
+def natList (s : String) : Option (List Nat) :=
+  if s = "." then some [] else (s.splitOn ";").mapM (·.toNat?)
+
+def parseTok (s : String) : Option Tok :=
+  match s.toList with
+  | 'l' :: rest => (String.ofList rest).toNat?.bind fun n => if n < 256 then some (Tok.lit n.toUInt8) else none
+  | 'm' :: rest =>
+    match ((String.ofList rest).splitOn ".").mapM (·.toNat?) with
+    | some [a, b, c, d] => some (Tok.mat a b c d)
+    | _ => none
+  | _ => none
+
+def parseToks (s : String) : Option (List Tok) := if s = "." then some [] else (s.splitOn ";").mapM parseTok
+
+def parseCl (s : String) : Option ClSym :=
+  match s.toList with
+  | 'n' :: rest => (String.ofList rest).toNat?.map ClSym.len
+  | 'r' :: rest => (String.ofList rest).toNat?.map ClSym.rep
+  | 'z' :: rest => (String.ofList rest).toNat?.map ClSym.z3
+  | 'Z' :: rest => (String.ofList rest).toNat?.map ClSym.z11
+  | _ => none
+
+def parseBlock (s : String) : Option Block :=
+  match s.splitOn ":" with
+  | ["S", d] => (unhex d).map Block.stored
+  | ["F", t] => (parseToks t).map Block.fixed
+  | ["D", hdr, clv, cls, lens, t] =>
+    match (hdr.splitOn ",").mapM (·.toNat?), natList clv, (if cls = "." then some [] else (cls.splitOn ";").mapM parseCl), natList lens, parseToks t with
+    | some [a, b, c], some clv, some cls, some lens, some toks => some (Block.dyn ⟨a, b, c, clv, cls⟩ lens toks)
+    | _, _, _, _, _ => none
+  | _ => none
+
 def okOrErr (r : Option Bytes) : String := match r with | some o => "OK " ++ hex o | none => "ERR"
 
 def step (toks : List String) : String :=
@@ -292,6 +328,11 @@ def step (toks : List String) : String :=
   | ["FL", b] => match unhex b with | some bs => okOrErr (inflateRaw bs) | none => "bad-op"
   | ["ZL", b] => match unhex b with | some bs => okOrErr (zlibDecode bs) | none => "bad-op"
   | ["DF", tree, b] => match unhex b with | some bs => okOrErr (deflateOf (tree = "1") bs) | none => "bad-op"
+  | ["BLOCKS", d] =>
+    match (d.splitOn "/").mapM parseBlock with
+    | none => "bad-op"
+    | some blocks =>
+      s!"ok={if blocks.all blockOkB then 1 else 0} bits={hex (packBits (blocksBits 0 blocks))} out={hex (expandBlocks #[] blocks).toList}"
   | _ => "bad-op"
 
 partial def loop (h : IO.FS.Stream) (out : IO.FS.Stream) : IO Unit := do
